@@ -219,3 +219,38 @@ int main(){ arr_real x = {%s}, y = {%s}; int n=x.size(); int nc=0, nd=0;
   if(nc+nd==0) return 0; double want = double(nc-nd)/(nc+nd); double got = corr(x, y, Correlation::Kendall); double sym = corr(y, x, Correlation::Kendall);
   if(std::fabs(got-want)>1e-12 || std::fabs(sym-want)>1e-12){ std::printf("tau=%%g (swapped %%g) expected %%g\\n",got,sym,want); return 1; } return 0; }
 ''' % (','.join(xs), ','.join(ys))
+
+
+@adapter(r'_irfft_coeffs.*twiddles')
+def irfft_coeffs_replay(o):
+    m = o['model'] or {}
+    n = I(m, 'n', 6)
+    if n % 2 or n < 2 or n > 1 << 16:
+        n = 6
+    return HDR + '''
+int main(){ const int n=%d; arr_real x(n); for(int i=0;i<n;++i) x[i]=std::sin(0.7*i)+0.1*i;
+  arr_real y = irfft(rfft(x), n); double err=0; for(int i=0;i<n;++i) err=std::fmax(err,std::fabs(y[i]-x[i]));
+  if(!(err<1e-9)){ std::printf("irfft(rfft(x),%%d) differs from x by %%g\\n",n,err); return 1; } return 0; }
+''' % n
+
+
+@adapter(r'IfftPlanR::IfftPlanR')
+def irfft_ctor_replay(o):
+    m = o['model'] or {}
+    n = I(m, 'n', 1)
+    return HDR + '''
+int main(){ bool thrown=false; try { IfftPlanR p(%d); (void)p; } catch(const std::exception&) { thrown=true; }
+  if(!thrown){ std::printf("odd size accepted\\n"); return 1; } return 0; }
+''' % n
+
+
+@adapter(r'istft\(.*guarded_normalisation')
+def istft_guard(o):
+    return HDR + '''
+// C02: istft(stft(x)) contains only finite values (and reproduces x where the accumulated window weight is non-zero)
+int main(){ const int nfft=16; auto win = window::hann(nfft, true);   // symmetric Hann: first and last weight are 0
+  arr_real x(5*nfft); for(int i=0;i<x.size();++i) x[i]=std::sin(0.3*i)+1.5;
+  auto X = stft(x, win, nfft/2, nfft, StftRange::Onesided); arr_real y = istft(X, win, nfft/2, nfft, StftRange::Onesided, OverlapMethod::Ola);
+  int bad=0; for(int i=0;i<y.size();++i) if(!std::isfinite(y[i])){ if(!bad) std::printf("sample %d of %d is not finite\\n", i, y.size()); ++bad; }
+  return bad?1:0; }
+'''
